@@ -24,6 +24,8 @@ func main() {
 	switch mode {
 	case "k1":
 		runK1(r, n)
+	case "k2":
+		runK2(r, n)
 	default:
 		fmt.Fprintln(os.Stderr, "unknown mode", mode)
 		os.Exit(2)
